@@ -2,6 +2,7 @@
 #include "../../backend/interpreter/core/error_handler.h"
 #include "../../backend/interpreter/evaluator/functions/generic_instantiation.h"
 #include "../../common/debug.h"
+#include "../../common/stack_guard.h"
 #include "../../common/debug_messages.h"
 #include "parsers/declaration_parser.h"
 #include "parsers/enum_parser.h"
@@ -127,6 +128,12 @@ void RecursiveParser::error(const std::string &message) {
                               current_token_.column, source_line);
 
     throw DetailedErrorException(message);
+}
+
+void RecursiveParser::checkNesting() {
+    if (cb_stack_guard::exhausted()) {
+        error("Nesting too deep (parser stack limit reached)");
+    }
 }
 
 ASTNode *RecursiveParser::parseProgram() {
@@ -343,6 +350,7 @@ ASTNode *RecursiveParser::parseAssignment() {
 }
 
 ASTNode *RecursiveParser::parseTernary() {
+    checkNesting();
     ASTNode *condition = parseLogicalOr();
 
     if (check(TokenType::TOK_QUESTION)) {
